@@ -5,6 +5,7 @@ import copy
 import datetime
 import json
 import math
+import os
 import re
 import struct
 from fractions import Fraction
@@ -715,6 +716,35 @@ def c09_search(ctx):
         if w and w["key"] not in seen:
             seen.add(w["key"])
             out.append(w)
+    # the same value classes in an interpreter started with -O: the rejections of the property are not `assert`s
+    for w in c09_optimized(ctx.seed, ctx.n(25, 200)):
+        if w["key"] not in seen:
+            seen.add(w["key"])
+            out.append(w)
+    return out
+
+
+def c09_optimized(seed, ndefs):
+    """the same oracle in an interpreter started with -O (assert statements do not run): witnesses found there"""
+    import subprocess
+    import sys as _sys
+    here = os.path.dirname(os.path.abspath(__file__))
+    env = dict(os.environ, NMEA2000_REPO=vlib.REPO, PYTHONPATH=vlib.REPO, PYTHONDONTWRITEBYTECODE="1", PYTHONHASHSEED="0")
+    try:
+        p = subprocess.run([_sys.executable, "-O", os.path.join(here, "c09_opt_worker.py"), str(seed), str(ndefs)],
+                           capture_output=True, text=True, timeout=600, env=env)
+    except Exception:  # noqa: BLE001
+        return []
+    out = []
+    for ln in p.stdout.splitlines():
+        try:
+            w = json.loads(ln)
+        except ValueError:
+            continue
+        if isinstance(w, dict) and "key" in w:
+            w["interp"] = "-O"
+            w["what"] = str(w.get("what", "")) + " [interpreter started with -O]"
+            out.append(w)
     return out
 
 
@@ -723,6 +753,19 @@ def c09_replay(ctx, data):
     from nmea2000.encoder import NMEA2000Encoder
     from nmea2000.message import NMEA2000Message, NMEA2000Field
     w = data.get("witness", data)
+    if w.get("interp") == "-O":
+        import subprocess
+        import sys as _sys
+        here = os.path.dirname(os.path.abspath(__file__))
+        env = dict(os.environ, NMEA2000_REPO=vlib.REPO, PYTHONPATH=vlib.REPO, PYTHONDONTWRITEBYTECODE="1", PYTHONHASHSEED="0")
+        p = subprocess.run([_sys.executable, "-O", os.path.join(here, "c09_opt_worker.py"), "--replay", json.dumps(w)],
+                           capture_output=True, text=True, timeout=300, env=env)
+        try:
+            r = json.loads(p.stdout.strip().splitlines()[-1])
+        except Exception:  # noqa: BLE001
+            r = {"still_fails": False, "text": p.stderr[-300:]}
+        print("observed (python -O):", r.get("text", "").strip() or ("still fails" if r.get("still_fails") else "property holds"))
+        return bool(r.get("still_fails"))
     d = next((x for x in PL.definitions() if x["PGN"] == w["pgn"] and x["Id"] == w["id"]), None)
     if d is not None and w.get("kind") in ("reuse", "locality"):
         import random
